@@ -214,6 +214,8 @@ void generatePlan(uint64_t seed, const GenOptions &opt, Plan &P)
         for (int j = 0; j < 6; j++) s.a[j] = uint32_t(R.next() & 0x7fffffff);
         if (s.a[5] == 999) s.a[5] = 998;
         if (s.op == "satpart") s.a[4] = 0;      // by events (by levels: KF-C20-2, probe plans only)
+        // probe hunting (tools only): SIM_PROBE_FLAG=<op> sets the "known finding allowed" flag on that step kind
+        if (const char* pf = getenv("SIM_PROBE_FLAG")) if (s.op == pf) s.a[5] = 999;
         if (s.op == "masscopy" && s.a[2] == 777) s.a[2] = 776;
         if (s.op == "masscopy" && opt.thorough && R.chance(1, 4)) s.a[2] = 777;
         if (s.op == "hoard" && s.a[2] == 777) s.a[2] = 776;
